@@ -89,7 +89,9 @@ class C01Conservation:
             if t["length"] > 0:
                 for s, share in t["share"].items():
                     expected[s] += tot * share / t["length"]
-        scale = 1.0 + float(np.max(np.abs(J), initial=0.0)) * float(rm.s_len.max())
+        # rounding scales with the two currents that are added, not with their (possibly cancelling) sum
+        jmax = max(float(np.max(np.abs(out["supercurrent"]), initial=0.0)), float(np.max(np.abs(out["normal_current"]), initial=0.0)))
+        scale = 1.0 + jmax * float(rm.s_len.max())
         resid = np.abs(flow - expected)
         self.max_resid = max(self.max_resid, float(resid.max() / scale))
         self.checked += 1
